@@ -1,7 +1,7 @@
 use std::str::FromStr;
 
 use cosmwasm_std::{
-    Coin, Decimal, Decimal256, DepsMut, Fraction, StdError, StdResult, Uint128, Uint256,
+    Coin, Decimal, Decimal256, DepsMut, StdError, StdResult, Uint128, Uint256,
 };
 
 use mantra_dex_std::pool_manager::PoolInfo;
@@ -139,14 +139,17 @@ pub fn assert_max_slippage(
         .into();
 
     if let Some(belief_price) = belief_price {
-        let expected_return =
-            Decimal256::from_ratio(Uint256::from_uint128(offer_amount), Uint256::one())
-                .checked_mul(
-                    Decimal256::from(belief_price)
-                        .inv()
-                        .ok_or_else(|| StdError::generic_err("Belief price can't be zero"))?,
-                )?
-                .to_uint_floor();
+        let belief_price = Decimal256::from(belief_price);
+        if belief_price.is_zero() {
+            return Err(StdError::generic_err("Belief price can't be zero"));
+        }
+
+        // expected_return = floor(offer_amount / belief_price), by exact division. Going through the
+        // 18 decimals inverse of the belief price loses most (or all) of its significant digits when
+        // the belief price is large, which weakens (or disables) the protection.
+        let expected_return = Uint256::from_uint128(offer_amount)
+            .checked_multiply_ratio(Decimal256::one().atomics(), belief_price.atomics())
+            .map_err(|e| StdError::generic_err(e.to_string()))?;
         let slippage_amount = expected_return.saturating_sub(Uint256::from_uint128(return_amount));
 
         if Uint256::from_uint128(return_amount) < expected_return
